@@ -226,6 +226,12 @@ func (w *world) step(pfx string, sdb evmvm.CStateDB) {
 	if m == mTransferFrom {
 		a2 = pick(pfx + ".addr2")
 	}
+	w.stepWith(pfx, sdb, m, caller, a1, a2, true)
+}
+
+// stepWith runs one call of method m; setup draws the allowance entries the call depends on (otherwise the
+// entries left by the previous call are used).
+func (w *world) stepWith(pfx string, sdb evmvm.CStateDB, m int, caller, a1, a2 common.Address, setup bool) {
 	amt := env.Amount(pfx+".amount", 256)
 	// the allowance the call depends on, allowance[a1][caller]: none / finite / infinite; and a bystander entry
 	// allowance[caller][a1] that must stay untouched (it is the same entry when a1 == caller)
@@ -246,8 +252,10 @@ func (w *world) step(pfx string, sdb evmvm.CStateDB) {
 		w.e.CK.SetErc20CpcAllowance(ctx, o, sp, v)
 		w.ref.Allow[[2]common.Address{o, sp}] = v
 	}
-	setAllow(pfx+".allowance", a1, caller)
-	if verif.Bool(pfx + ".bystanderAllowance") {
+	if setup {
+		setAllow(pfx+".allowance", a1, caller)
+	}
+	if setup && verif.Bool(pfx+".bystanderAllowance") {
 		by := env.Amount(pfx+".bystanderAllowance.value", 256)
 		verif.Assume(by.Sign() > 0)
 		w.e.CK.SetErc20CpcAllowance(ctx, caller, a1, by)
@@ -333,12 +341,37 @@ func H_C10_3_Views() {
 	w.views(sdb)
 }
 
-// H_C10_2_TwoCalls: sequences of two calls (approve -> transferFrom, transfer -> burn, ...).
+// H_C10_2_TwoCalls: the approve -> spend interplay through the real contract in one transaction: X1 approves X2
+// for a symbolic amount (real approve call), then X2 calls transferFrom / burnFrom / approve / transfer / burn with
+// X1 as the owner argument, using the allowance entry the first call wrote (no re-initialisation in between).
+// (All pairs of arbitrary calls are 6331^2 paths; the inductive step H_C10_1 from an arbitrary ledger and
+// allowance table covers longer histories.)
 func H_C10_2_TwoCalls() {
 	w := newWorld()
 	sdb := w.e.NewStateDB(w.e.Ctx, Coinbase)
+	w.stepWith("call1", sdb, mApprove, X1, X2, X2, false)
+	m := verif.Choice("call2.method", nMethods)
+	a2 := X2
+	if m == mTransferFrom {
+		a2 = pick("call2.addr2")
+	}
+	w.stepWith("call2", sdb, m, X2, X1, a2, false)
+	if m == mTransferFrom || m == mBurnFrom {
+		verif.Reach("spend-after-approve")
+	}
+}
+
+// H_C10_2b_AnyThenSpend (thorough tier): an arbitrary first call (every method, caller, argument and allowance set-up of
+// H_C10_1) followed by X2 spending from X1 (transferFrom to X3 / burnFrom) on the state the first call left.
+func H_C10_2b_AnyThenSpend() {
+	w := newWorld()
+	sdb := w.e.NewStateDB(w.e.Ctx, Coinbase)
 	w.step("call1", sdb)
-	w.step("call2", sdb)
+	m := mTransferFrom
+	if verif.Bool("call2.burnFrom") {
+		m = mBurnFrom
+	}
+	w.stepWith("call2", sdb, m, X2, X1, X3, false)
 }
 
 // views: balanceOf / totalSupply / allowance return exactly the bank / allowance state, change nothing, and work
